@@ -111,14 +111,15 @@ PolicyApplies(pol, pod, dir) ==
   pol.ans = pod.ns /\ SelMatches(pol.podSel, pod.podLabels) /\ dir \in EffTypes(pol)
 
 \* traffic between pod and the peer endpoint, in direction dir as seen from pod, on destination port
+\* (network policies do not apply to a pod that runs in the host's network namespace)
 Admits(pols, dir, pod, ep, port) ==
   LET sel == {p \in pols : PolicyApplies(p, pod, dir)} IN
-  sel = {} \/ \E p \in sel : \E r \in RulesOf(p, dir) : RuleAdmits(r, p.ans, ep, port)
+  pod.hostNet \/ sel = {} \/ \E p \in sel : \E r \in RulesOf(p, dir) : RuleAdmits(r, p.ans, ep, port)
 
 -----------------------------------------------------------------------------
 (* the packet universe                                                                                         *)
-Pod(tag, ns, nsl, pl, ip) == [kind |-> "pod", tag |-> tag, ns |-> ns, nsLabels |-> nsl, podLabels |-> pl, ip |-> ip]
-Ext(tag, ip) == [kind |-> "ext", tag |-> tag, ns |-> "", nsLabels |-> {}, podLabels |-> {}, ip |-> ip]
+Pod(tag, ns, nsl, pl, ip) == [kind |-> "pod", tag |-> tag, ns |-> ns, nsLabels |-> nsl, podLabels |-> pl, ip |-> ip, hostNet |-> FALSE]
+Ext(tag, ip) == [kind |-> "ext", tag |-> tag, ns |-> "", nsLabels |-> {}, podLabels |-> {}, ip |-> ip, hostNet |-> FALSE]
 
 OtherNs == "othertenantnamespace0000000000000000000000000"
 OtherNsLabels  == {<<LManaged, "true">>, <<LNs, OtherNs>>, <<LOwner, "someoneelse">>}
@@ -158,7 +159,8 @@ EgressPorts == {<<"UDP", 53>>, <<"TCP", 53>>, <<"TCP", 443>>, <<"UDP", 123>>, <<
 \* object of that name (if any was generated)
 NsLabelsOf(objs, ns) == UNION {o.labels : o \in {x \in objs : x.kind = "namespace" /\ x.name = ns}}
 LocalPods(objs) ==
-  {Pod(d.name, d.ans, NsLabelsOf(objs, d.ans), d.tmplLabels, <<10, 42, 0, 5>>) : d \in {o \in objs : o.kind = "deployment"}}
+  {[Pod(d.name, d.ans, NsLabelsOf(objs, d.ans), d.tmplLabels, <<10, 42, 0, 5>>) EXCEPT !.hostNet = d.hostNet] :
+     d \in {o \in objs : o.kind = "deployment"}}
 Pols(objs) == {o \in objs : o.kind = "netpol"}
 
 ExtPort(e) == IF e.as = 0 THEN e.port ELSE e.as
@@ -245,13 +247,23 @@ BadCalls(calls, ns) ==
 
 Containers(objs) == UNION {{[dep |-> d.name, c |-> d.containers[i]] : i \in DOMAIN d.containers} : d \in {o \in objs : o.kind = "deployment"}}
 
-\* privileged unset means false in Kubernetes; allowPrivilegeEscalation and automountServiceAccountToken unset mean true
+\* privileged unset means false in Kubernetes; allowPrivilegeEscalation and automountServiceAccountToken unset mean true;
+\* a container that is handed additional capabilities is not unprivileged
 BadSandbox(objs) ==
   {<<d.name, "automountServiceAccountToken">> : d \in {o \in objs : o.kind = "deployment" /\ o.automount # "false"}}
   \cup {<<x.dep, "privileged">> : x \in {y \in Containers(objs) : y.c.privileged = "true"}}
   \cup {<<x.dep, "allowPrivilegeEscalation">> : x \in {y \in Containers(objs) : y.c.ape # "false"}}
+  \cup {<<x.dep, "capabilities">> : x \in {y \in Containers(objs) : y.c.caps > 0}}
 Sandboxed(objs) == BadSandbox(objs) = {}
 
+\* A quantity (millicpu, bytes) is <<hi, lo>> = hi * 2^20 + lo with 0 <= lo < 2^20, because TLC integers are 32 bit
+\* and leases of 2 GiB and more must be expressible; an unset quantity is <<-1, 0>>.
+QUnit == 1048576
+QLe(a, b) == a[1] < b[1] \/ (a[1] = b[1] /\ a[2] <= b[2])
+QNorm(hi, lo) == <<hi + lo \div QUnit, lo % QUnit>>
+QMul(a, d) == QNorm(a[1] * d, a[2] * d)                       \* d small
+QDivRound(a, n) ==                                            \* a / n rounded half up, n small
+  LET rest == (a[1] % n) * QUnit + a[2] IN QNorm(a[1] \div n, rest \div n + (IF 2 * (rest % n) >= n THEN 1 ELSE 0))
 Leased(svc) == [cpu |-> svc.cpu, memory |-> svc.mem, storage |-> svc.sto]
 ResNames == {"cpu", "memory", "storage"}
 \* svcsets: the manifests (sequences of services) that may account for a deployment: the current round's, and for
@@ -259,7 +271,7 @@ ResNames == {"cpu", "memory", "storage"}
 BadLimits(objs, svcsets) ==
   {<<x.dep, "limits">> : x \in {y \in Containers(objs) :
       ~\E svcs \in svcsets : \E i \in DOMAIN svcs : svcs[i].name = y.dep /\ y.c.limits = Leased(svcs[i])}}
-  \cup {<<x.dep, "requests">> : x \in {y \in Containers(objs) : \E r \in ResNames : y.c.requests[r] > y.c.limits[r]}}
+  \cup {<<x.dep, "requests">> : x \in {y \in Containers(objs) : \E r \in ResNames : ~QLe(y.c.requests[r], y.c.limits[r])}}
 LimitsLeased(objs, svcsets) == BadLimits(objs, svcsets) = {}
 
 -----------------------------------------------------------------------------
@@ -271,7 +283,7 @@ LimitsLeased(objs, svcsets) == BadLimits(objs, svcsets) = {}
 \* util.ComputeCommittedResources: round(v / level), at least 1; level <= 1 commits the full value
 Committed(v, lvl) ==
   IF lvl[1] <= lvl[2] THEN v
-  ELSE LET x == v * lvl[2] q == x \div lvl[1] r == x % lvl[1] IN KMax(1, q + (IF 2 * r >= lvl[1] THEN 1 ELSE 0))
+  ELSE LET c == QDivRound(QMul(v, lvl[2]), lvl[1]) IN IF c = <<0, 0>> THEN <<0, 1>> ELSE c
 
 BaseLabels(ns) == {<<LManaged, "true">>, <<LNs, ns>>}
 LeaseLabels(ns, l) == BaseLabels(ns) \cup {<<LOwner, l.owner>>, <<LDSeq, ToString(l.dseq)>>, <<LGSeq, ToString(l.gseq)>>,
